@@ -45,13 +45,29 @@ func (g *c14gen) ident(upper bool) string {
 		}
 		if upper {
 			w = strings.ToUpper(w[:1]) + w[1:]
+		} else if g.r.Intn(4) == 0 {
+			w = camelToSnake(w) // the spelling of the service schema: bad_msg_notification, future_salt
 		}
-		k := strings.ToLower(w)
+		k := strings.ReplaceAll(strings.ToLower(w), "_", "")
 		if !g.used[k] && k != "flags" && k != "type" && k != "func" && k != "range" && k != "true" && k != "vector" {
 			g.used[k] = true
 			return w
 		}
 	}
+}
+
+func camelToSnake(w string) string {
+	var b strings.Builder
+	for i, ch := range w {
+		if ch >= 'A' && ch <= 'Z' {
+			if i > 0 {
+				b.WriteByte('_')
+			}
+			ch += 'a' - 'A'
+		}
+		b.WriteRune(ch)
+	}
+	return b.String()
 }
 
 func (g *c14gen) qualified(upper bool) string {
@@ -167,8 +183,13 @@ func genSchemaText(r *rand.Rand, plainComments bool) string {
 		if r.Intn(2) == 0 {
 			sb.WriteString("// @type " + d.name + " description of the type\n")
 		}
+		snake := r.Intn(3) == 0
 		lowerType := func() string {
 			i := strings.LastIndex(d.name, ".") + 1
+			if snake {
+				// bad_msg_notification = BadMsgNotification: differs from the type by more than the first letter's case
+				return d.name[:i] + camelToSnake(d.name[i:])
+			}
 			return d.name[:i] + strings.ToLower(d.name[i:i+1]) + d.name[i+1:]
 		}
 		switch d.kind {
